@@ -102,7 +102,8 @@ PVecRef(R, ln) ==
   CASE ln.m = "pauli_decomp"      -> PVec(R.G, R.n)                    \* coefficient * 2^n
     [] ln.m = "purify"            -> PVec(R.G, R.n)                    \* of the reduced purification
     [] ln.m = "partial_transpose" -> PVecPT(R.G, R.n, QSet(ln.dims, ln.A))
-    [] ln.m = "dephase"           -> [k \in 1..(4^R.n) |-> PVec(R.G, R.n)[k] + (IF k = 1 THEN 1 ELSE 0)]  \* p = 1/2, * 2
+    [] ln.m = "dephase"           -> LET pv == PVec(R.G, R.n) IN
+                                     [k \in 1..(4^R.n) |-> 3 * pv[k] + (IF k = 1 THEN 1 ELSE 0)]     \* p = 1/4, * 4
 
 PVecName(m) ==
   CASE m = "pauli_decomp" -> "PauliDecompValue"
